@@ -210,7 +210,8 @@ def _after_use(spec):
         rec.bump("scalar_calls")
         rec.bump("calls_repeated_after_other_api_use")
         f2 = dict(feats, fam=sub["fam"], tol=sub["tol"], scale_decade=int(np.floor(np.log10(abs(sub["scale"])))))
-        same = (r1[4] == r2[4]) and (np.asarray(r1[3]).tobytes() == np.asarray(r2[3]).tobytes())
+        # (by value: the storage of an extended-precision number carries padding bytes)
+        same = (r1[4] == r2[4]) and bool(np.asarray(r1[3]) == np.asarray(r2[3]) or (np.isnan(r1[3]) and np.isnan(r2[3])))
         if not same:
             rec.violate("purity", "result_depends_on_earlier_use_of_other_library_functions", f2, first=[float(r1[3]), r1[4]], second=[float(r2[3]), r2[4]])
         _check_one(rec, f2, r2[0], r2[1], r2[2], r2[3], r2[4], dt, r2[5])
